@@ -113,6 +113,11 @@ void reb_calculate_acceleration(struct reb_simulation* r){
                         ////////////////
                         // Direct Term
                         // Note: ignoring i==0 && j==1 term here and above as they cancel 
+                        // Test particles (index >= N_active) do not interact with each other and only act
+                        // back on active particles if testparticle_type is set (same rules as REB_GRAVITY_BASIC).
+                        // Here i<j, so j is a test particle whenever i is one.
+                        if (i>=_N_active) continue;
+                        const int j_is_testparticle = (j>=_N_active);
                         const double dx = particles[i].x - particles[j].x;
                         const double dy = particles[i].y - particles[j].y;
                         const double dz = particles[i].z - particles[j].z;
@@ -121,9 +126,11 @@ void reb_calculate_acceleration(struct reb_simulation* r){
                         const double prefacti = prefact*particles[i].m;
                         const double prefactj = prefact*particles[j].m;
                         
-                        particles[i].ax    -= prefactj*dx;
-                        particles[i].ay    -= prefactj*dy;
-                        particles[i].az    -= prefactj*dz;
+                        if (!j_is_testparticle || _testparticle_type){
+                            particles[i].ax    -= prefactj*dx;
+                            particles[i].ay    -= prefactj*dy;
+                            particles[i].az    -= prefactj*dz;
+                        }
                         particles[j].ax    += prefacti*dx;
                         particles[j].ay    += prefacti*dy;
                         particles[j].az    += prefacti*dz;
